@@ -7,7 +7,7 @@
     of [BPut]/[BRollback r]; [ops_valid n ops]: every rollback target is at most the
     current revision; [ops_above r ops]: no rollback below revision [r]. *)
 From Coq Require Import NArith List Bool Arith Permutation Sorting.Sorted.
-From Verif Require Import StateBuf.Model StateBuf.BufProofs StateBuf.Db StateBuf.DbProofs StateBuf.DbRevert.
+From Verif Require Import StateBuf.Model StateBuf.BufProofs StateBuf.Db StateBuf.DbProofs StateBuf.DbRevert StateBuf.DbSafe.
 Import ListNotations.
 
 (** The index invariant holds initially and after every operation of every valid run, and
@@ -112,6 +112,21 @@ Theorem C12_dwf_reachable : forall t sa sv s ops d,
   run (sdb_new t sa sv) ops = Ok d -> dwf d.
 Proof. exact dwf_reachable. Qed.
 Print Assumptions C12_dwf_reachable.
+
+(** Every operation that does not itself panic (nil handle, out-of-contract revision) keeps
+    the block-level invariant — Update, Commit and reopen included, without any discipline. *)
+Theorem C12_dwf_step : forall d o d', dwf d -> step d o = Ok d' -> dwf d'.
+Proof. exact dwf_step. Qed.
+Print Assumptions C12_dwf_step.
+
+(** Hence in every state reachable from a fresh StateDB by any operation sequence the index
+    invariant holds for all buffers, and Update and Commit (export, stage, reset of every
+    buffer) never index out of bounds. *)
+Theorem C12_update_commit_never_panic : forall t sa sv ops d,
+  run (sdb_new t sa sv) ops = Ok d ->
+  dwf d /\ (exists d', db_update d = Ok d' /\ dwf d') /\ (exists d', db_commit d = Ok d' /\ dwf d').
+Proof. exact update_commit_never_panic. Qed.
+Print Assumptions C12_update_commit_never_panic.
 
 (** The unrestricted statement is false of the code: an Update between the snapshot and the
     revert leaves the reverted write in the account trie (known finding C12:update-then-rollback). *)
